@@ -65,6 +65,10 @@ type OpSpec struct {
 	X    [][2]uint64 `json:"x,omitempty"` // extras (field code, value code), sorted by field
 	Elec *U128  `json:"elec,omitempty"`
 	Bad  bool   `json:"bad,omitempty"` // an enum field carries a number the schema does not define (v4, v6, nh)
+	// BadList (nh): a repeated field carries an undefined enum number in one element: 1 = first of two pushed labels,
+	// 2 = last of two pushed labels, 3 = first of two encapsulation headers, 4 = last of two encapsulation headers,
+	// 5 = middle of three pushed labels.  The model treats it like Bad.
+	BadList int `json:"badlist,omitempty"`
 	RawNI string `json:"rawni,omitempty"` // network instance name outside the table (e.g. invalid UTF-8); model code 4 (unknown)
 }
 
@@ -189,6 +193,25 @@ func (o OpSpec) Proto() *spb.AFTOperation {
 			if o.Bad {
 				e.EncapsulateHeader = enums.OpenconfigAftTypesEncapsulationHeaderType(99)
 			}
+			lbl := func(v uint64) *aftpb.Afts_NextHop_PushedMplsLabelStackUnion {
+				return &aftpb.Afts_NextHop_PushedMplsLabelStackUnion{PushedMplsLabelStackUint64: v}
+			}
+			badLbl := &aftpb.Afts_NextHop_PushedMplsLabelStackUnion{PushedMplsLabelStackOpenconfigmplstypesmplslabelenum: enums.OpenconfigMplsTypesMplsLabelEnum(99)}
+			hdr := func(i uint64, t int32) *aftpb.Afts_NextHop_EncapHeaderKey {
+				return &aftpb.Afts_NextHop_EncapHeaderKey{Index: i, EncapHeader: &aftpb.Afts_NextHop_EncapHeader{Type: enums.OpenconfigAftTypesEncapsulationHeaderType(t)}}
+			}
+			switch o.BadList {
+			case 1:
+				e.PushedMplsLabelStack = []*aftpb.Afts_NextHop_PushedMplsLabelStackUnion{badLbl, lbl(42)}
+			case 2:
+				e.PushedMplsLabelStack = []*aftpb.Afts_NextHop_PushedMplsLabelStackUnion{lbl(42), badLbl}
+			case 3:
+				e.EncapHeader = []*aftpb.Afts_NextHop_EncapHeaderKey{hdr(1, 99), hdr(2, 4)}
+			case 4:
+				e.EncapHeader = []*aftpb.Afts_NextHop_EncapHeaderKey{hdr(1, 4), hdr(2, 99)}
+			case 5:
+				e.PushedMplsLabelStack = []*aftpb.Afts_NextHop_PushedMplsLabelStackUnion{lbl(41), badLbl, lbl(42)}
+			}
 			k.NextHop = e
 		}
 		op.Entry = &spb.AFTOperation_NextHop{NextHop: k}
@@ -231,7 +254,7 @@ func (o OpSpec) EntryCoq() string {
 		pl := "None"
 		if !o.Nil {
 			pl = fmt.Sprintf("(Some (mk_nh %s))", coqX(o.X))
-			if o.Bad {
+			if o.Bad || o.BadList != 0 {
 				pl = fmt.Sprintf("(Some {| h_x := %s; h_bad := true |})", coqX(o.X))
 			}
 		}
